@@ -125,6 +125,15 @@ CHECKS = {
             "Trusted: the stub's row schema (copied from a real PROPKA 3.5.1 run); support = complete rows in the "
             "independent force-field model. Known finding: terminal-group rows never reach the titration stage.",
             "DESIGN.md#c06"),
+    "C03": ("exploration", "conservation checker over whole runs (input heavy atoms = kept + reported deletions; final model = written + unassigned; written atom-name set = independent topology set of the derived final state) with an event log on Residue.remove_atom and an optimisation-branch counter",
+            "Every successful run of the workload (all residue names x positions x force fields, dense/hydrated/damaged "
+            "structures, extra atoms, pre-existing hydrogens, option mixes, pKa-driven states) is checked residue by "
+            "residue: each input heavy atom must be in the final model or named in a WARNING record; PQR lines must be "
+            "exactly the model atoms not reported unassigned; fully parameterised residues must carry exactly the atom "
+            "set our own parse of the topology XML gives for the state derived from generator truth; no *FLIP / LP* "
+            "names, no duplicates. The evidence lists which optimisation methods actually ran.",
+            "Trusted: generator ground truth for chain positions; own XML topology parse and patch semantics; a "
+            "deletion counts as reported when a WARNING record names atom and residue number.", "DESIGN.md#c03"),
 }
 
 NOT_APPLICABLE = {}
